@@ -119,19 +119,19 @@ func (w *vpWorld) observeLoad(j *vpJar, saved *sessionsapi.SessionState) (loaded
 	loaded = 0
 	if r.Status == 200 {
 		var ui struct {
-			User string `json:"user"`
+			User   string   `json:"user"`
+			Groups []string `json:"groups"`
 		}
 		json.Unmarshal(r.Body, &ui)
-		if strings.HasPrefix(ui.User, "user-") {
-			loaded, _ = strconv.Atoi(strings.TrimPrefix(ui.User, "user-"))
-		} else {
-			loaded = -1
-		}
+		loaded = vpSaveID(ui.User, ui.Groups)
 	}
 	got, err := w.proxy.sessionStore.Load(w.storeReq(j))
 	direct := 0
-	if err == nil && got != nil && strings.HasPrefix(got.User, "user-") {
-		direct, _ = strconv.Atoi(strings.TrimPrefix(got.User, "user-"))
+	if err == nil && got != nil {
+		direct = vpSaveID(got.User, got.Groups)
+		if direct < 0 {
+			direct = 0
+		}
 	}
 	if direct != loaded {
 		return loaded, false
@@ -140,6 +140,22 @@ func (w *vpWorld) observeLoad(j *vpJar, saved *sessionsapi.SessionState) (loaded
 		return loaded, loaded == 0
 	}
 	return loaded, err == nil && vpSessionsEqual(saved, got)
+}
+
+// vpSaveID: which save a loaded session is. A save of the same identity as an earlier one carries that identity's user and e-mail,
+// so the number of the save travels in a marker group ("save-<id>"); sessions without the marker are identified by the user name.
+func vpSaveID(user string, groups []string) int {
+	for _, g := range groups {
+		if strings.HasPrefix(g, "save-") {
+			n, _ := strconv.Atoi(strings.TrimPrefix(g, "save-"))
+			return n
+		}
+	}
+	if strings.HasPrefix(user, "user-") {
+		n, _ := strconv.Atoi(strings.TrimPrefix(user, "user-"))
+		return n
+	}
+	return -1
 }
 
 // calibrate finds, for k = 1..kmax, the largest access-token length whose session still fits k cookies.
@@ -220,6 +236,7 @@ func init() {
 				var steps []map[string]interface{}
 				var conc []interface{}
 				var last *sessionsapi.SessionState
+				var ident *sessionsapi.SessionState
 				for _, st := range c.Steps {
 					obs := map[string]interface{}{}
 					switch st.A {
@@ -241,6 +258,12 @@ func init() {
 							L = lo + rng.Intn(hi-lo+1)
 						}
 						s := vpMkSession(id, L, rng)
+						if vpS(st.Args, "who") == "same" && ident != nil {
+							// the same identity saved again (a refresh / repeated login): tokens, groups, nonce differ, user and e-mail do not
+							s.User, s.Email = ident.User, ident.Email
+						} else {
+							ident = s
+						}
 						if vpS(st.Args, "content") == "rep" {
 							// long runs and exact repetitions: kilobytes that compress to almost nothing
 							s.AccessToken = strings.Repeat("A", 6000+id)
@@ -251,6 +274,7 @@ func init() {
 								s.Groups = append(s.Groups, "same-group")
 							}
 						}
+						s.Groups = append(s.Groups, fmt.Sprintf("save-%d", id))
 						n, maxLen, err := w.saveVia(jar, s)
 						if err != nil {
 							obs["error"] = err.Error()
